@@ -780,4 +780,613 @@ theorem isPrime_of_prime (p : ℕ) (hp : p.Prime) : isPrime p = true := by
     · have : ¬ p ∣ a := fun hd => ha (Nat.mod_eq_zero_of_dvd hd)
       simp [sprp_prime p a hp this]
 
+section Fac
+open Nat
+/-! ## Factorials: odd part and power of two -/
+
+/-- product of the odd numbers ≤ n -/
+def oddDF (n : ℕ) : ℕ := (2 * ((n + 1) / 2) - 1)‼
+
+theorem doubleFactorial_odd (k : ℕ) : (2 * k + 1)‼ % 2 = 1 := by
+  induction k with
+  | zero => rfl
+  | succ k ih =>
+    rw [show 2 * (k + 1) + 1 = 2 * k + 1 + 2 by ring, Nat.doubleFactorial_add_two, Nat.mul_mod, ih]
+    omega
+
+theorem oddDF_odd (n : ℕ) : oddDF n % 2 = 1 := by
+  unfold oddDF
+  rcases Nat.eq_zero_or_pos ((n + 1) / 2) with h | h
+  · rw [h]; rfl
+  · obtain ⟨k, hk⟩ : ∃ k, (n + 1) / 2 = k + 1 := ⟨(n + 1) / 2 - 1, by omega⟩
+    rw [hk, show 2 * (k + 1) - 1 = 2 * k + 1 by omega]; exact doubleFactorial_odd k
+
+/-- n! = 2^(n/2) (n/2)! (product of the odd numbers ≤ n) -/
+theorem factorial_split (n : ℕ) : n ! = 2 ^ (n / 2) * (n / 2)! * oddDF n := by
+  unfold oddDF
+  rcases Nat.even_or_odd' n with ⟨m, rfl | rfl⟩
+  · rcases m with _ | m
+    · rfl
+    · rw [show 2 * (m + 1) = 2 * m + 1 + 1 by ring, Nat.factorial_eq_mul_doubleFactorial,
+        show 2 * m + 1 + 1 = 2 * (m + 1) by ring, Nat.doubleFactorial_two_mul]
+      have e1 : 2 * (m + 1) / 2 = m + 1 := by omega
+      have e2 : 2 * ((2 * (m + 1) + 1) / 2) - 1 = 2 * m + 1 := by omega
+      rw [e1, e2]
+  · rw [Nat.factorial_eq_mul_doubleFactorial, Nat.doubleFactorial_two_mul]
+    have e1 : (2 * m + 1) / 2 = m := by omega
+    have e2 : 2 * ((2 * m + 1 + 1) / 2) - 1 = 2 * m + 1 := by omega
+    rw [e1, e2]; ring
+
+theorem oddPart_of_eq {m t x : ℕ} (hx : x % 2 = 1) (h : m = 2 ^ t * x) : oddPart m = x := by
+  have hm : m ≠ 0 := by
+    rw [h]; have : 0 < 2 ^ t := Nat.two_pow_pos t
+    have : 0 < x := by omega
+    positivity
+  obtain ⟨ho, s, hs⟩ := oddPart_spec m hm
+  have := odd_part_unique ho hx (by rw [← hs, h])
+  exact this.2
+
+theorem oddPart_factorial_rec (n : ℕ) : oddPart (n !) = oddDF n * oddPart ((n / 2)!) := by
+  obtain ⟨ho, t, ht⟩ := oddPart_spec ((n / 2)!) (Nat.factorial_ne_zero _)
+  apply oddPart_of_eq (t := n / 2 + t)
+  · rw [Nat.mul_mod, oddDF_odd, ho]
+  · rw [factorial_split n]
+    conv_lhs => rw [ht]
+    rw [pow_add]; ring
+
+theorem popc_le : ∀ fuel n, popc fuel n ≤ n := by
+  intro fuel
+  induction fuel with
+  | zero => intro n; simp [popc]
+  | succ f ih =>
+    intro n; rw [popc]
+    by_cases h : n = 0
+    · simp [h]
+    · simp only [h, if_false]; have := ih (n / 2); omega
+
+/-- Legendre for p = 2: n! = 2^(n - popcount n) · (odd part of n!) -/
+theorem factorial_two_adic_aux : ∀ fuel n, n < 2 ^ fuel → n ! = 2 ^ (n - popc fuel n) * oddPart (n !) := by
+  intro fuel
+  induction fuel with
+  | zero =>
+    intro n hn
+    have : n = 0 := by simpa using hn
+    subst this; decide
+  | succ f ih =>
+    intro n hn
+    rw [popc]
+    by_cases h : n = 0
+    · subst h; simp only [if_true, Nat.sub_zero, pow_zero, one_mul]; decide
+    · simp only [h, if_false]
+      have hlt : n / 2 < 2 ^ f := by rw [pow_succ] at hn; omega
+      have h2 := ih (n / 2) hlt
+      have hp := popc_le f (n / 2)
+      rw [oddPart_factorial_rec n]
+      conv_lhs => rw [factorial_split n, h2]
+      have e : n - (n % 2 + popc f (n / 2)) = n / 2 + (n / 2 - popc f (n / 2)) := by omega
+      rw [e, pow_add]; ring
+
+theorem factorial_two_adic (n : ℕ) (hn : n < B) : n ! = 2 ^ (n - popcount n) * oddPart (n !) :=
+  factorial_two_adic_aux 64 n (by rw [B_eq] at hn; norm_num; omega)
+
+/-! ## Factor lists (FACTOR_LIST_STORE) never overflow a limb -/
+
+/-- the number a factor-list state stands for: stored limbs times the running limb -/
+def flVal (st : FL) : ℕ := prodList (st.2 :: st.1)
+
+theorem flVal_mk (l : List ℕ) (p : ℕ) : flVal (l, p) = p * prodList l := rfl
+
+/-- FACTOR_LIST_STORE multiplies the represented number by p, provided the limb product cannot wrap
+    when the running limb is at most MAX_PR -/
+theorem flStore_val (p M : ℕ) (st : FL) (h : st.2 ≤ M → st.2 * p < B) :
+    flVal (flStore p M st) = flVal st * p := by
+  obtain ⟨l, pr⟩ := st
+  unfold flStore
+  by_cases hgt : pr > M
+  · simp only [hgt, if_true, flVal_mk, prodList]; ring
+  · simp only [hgt, if_false, flVal_mk]
+    rw [Nat.mod_eq_of_lt (h (by simpa using hgt))]; ring
+
+/-- fac_ui.c:88-89: the factors n-1, n-2, ..., lo -/
+theorem facStoreDown_val (M lo : ℕ) (hlo : 1 ≤ lo) : ∀ fuel n st, n ≤ fuel → lo ≤ n → M * n < B →
+    flVal (facStoreDown M lo fuel n st) * (lo - 1)! = flVal st * (n - 1)! := by
+  intro fuel
+  induction fuel with
+  | zero => intro n st h1 h2; omega
+  | succ fuel ih =>
+    intro n st hf hn hM
+    rw [facStoreDown]
+    by_cases hc : n - 1 ≥ lo ∧ n ≥ 1
+    · simp only [hc, and_self, if_true]
+      have hv := flStore_val (n - 1) M st (fun hle => by
+        calc st.2 * (n - 1) ≤ M * n := Nat.mul_le_mul hle (by omega)
+          _ < B := hM)
+      have hM' : M * (n - 1) < B := lt_of_le_of_lt (Nat.mul_le_mul_left _ (by omega)) hM
+      rw [ih (n - 1) _ (by omega) hc.1 hM', hv]
+      obtain ⟨k, rfl⟩ : ∃ k, n = k + 2 := ⟨n - 2, by omega⟩
+      simp only [show k + 2 - 1 = k + 1 by omega, show k + 1 - 1 = k by omega, Nat.factorial_succ]; ring
+    · simp only [hc, if_false]
+      have : n = lo := by omega
+      rw [this]
+
+theorem fac_table_entry : ∀ i < facTable.length, facTable.getD i 0 = i ! := by
+  simp only [← factorial_eq]; decide +kernel
+
+theorem fac2cnt_entry : ∀ n ≤ TABLE_LIMIT_2N_MINUS_POPC_2N, 2 ≤ n → fac2cntTab (n / 2 - 1) = n - popcount n := by
+  decide +kernel
+
+theorem facShift_eq (n : ℕ) (h : 2 ≤ n) : facShift n = n - popcount n := by
+  unfold facShift
+  by_cases hs : n ≤ TABLE_LIMIT_2N_MINUS_POPC_2N
+  · simp only [hs, if_true]; exact fac2cnt_entry n hs h
+  · simp only [hs, if_false]
+
+theorem facTable_length_pos : 2 ≤ facTable.length := by decide
+
+/-- mpz_fac_ui = n!, given that mpz_oddfac_1 returns the odd part of n! on the branch that uses it -/
+theorem mpz_fac_ui_eq (n : ℕ) (hn : n < B)
+    (hodd : facTable.length ≤ n → aboveThreshold n FAC_ODD_THRESHOLD = true → mpz_oddfac_1 n 0 = oddPart (n !)) :
+    mpz_fac_ui n = n ! := by
+  unfold mpz_fac_ui
+  simp only
+  by_cases h1 : n < facTable.length
+  · simp only [h1, if_true]; exact fac_table_entry n h1
+  · simp only [h1, if_false]
+    have hlen := facTable_length_pos
+    by_cases h2 : aboveThreshold n FAC_ODD_THRESHOLD = true
+    · simp only [h2, Bool.not_true, Bool.false_eq_true, if_false]
+      rw [hodd (by omega) h2, facShift_eq n (by omega), mul_comm]
+      exact (factorial_two_adic n hn).symm
+    · simp only [h2, Bool.not_false, if_true]
+      -- the limb-product basecase fac_ui.c:72-97
+      have hthr : FAC_ODD_THRESHOLD ≠ 0 ∧ n < FAC_ODD_THRESHOLD := by
+        unfold aboveThreshold at h2
+        simp only [Bool.or_eq_true, decide_eq_true_eq, not_or, not_le] at h2
+        exact h2
+      have hM : (B - 1) / (FAC_ODD_THRESHOLD ||| 1) * n < B := by
+        have hle : n ≤ FAC_ODD_THRESHOLD ||| 1 := le_trans (le_of_lt hthr.2) Nat.left_le_or
+        calc (B - 1) / (FAC_ODD_THRESHOLD ||| 1) * n ≤ (B - 1) / (FAC_ODD_THRESHOLD ||| 1) * (FAC_ODD_THRESHOLD ||| 1) :=
+              Nat.mul_le_mul_left _ hle
+          _ ≤ B - 1 := Nat.div_mul_le_self _ _
+          _ < B := by rw [B_eq]; norm_num
+      have hv := facStoreDown_val ((B - 1) / (FAC_ODD_THRESHOLD ||| 1)) facTable.length (by omega) n n
+        ([facTable.getD (facTable.length - 1) 0], n) le_rfl (by omega) hM
+      have e0 : flVal ([facTable.getD (facTable.length - 1) 0], n) = n * (facTable.length - 1)! := by
+        rw [flVal_mk, prodList, prodList, fac_table_entry _ (by omega)]; ring
+      rw [e0] at hv
+      have hpos : 0 < (facTable.length - 1)! := Nat.factorial_pos _
+      have : n * (n - 1)! = n ! := by
+        obtain ⟨k, rfl⟩ : ∃ k, n = k + 1 := ⟨n - 1, by omega⟩
+        simp [Nat.factorial_succ]
+      have h3 : flVal (facStoreDown ((B - 1) / (FAC_ODD_THRESHOLD ||| 1)) facTable.length n n
+          ([facTable.getD (facTable.length - 1) 0], n)) * (facTable.length - 1)! = n ! * (facTable.length - 1)! := by
+        rw [hv, ← this]; ring
+      exact Nat.eq_of_mul_eq_mul_right hpos h3
+
+/-- product of i, i+2, i+4, ... while ≤ tn (at least i), mirroring the do-while of oddfac_1.c:355-358 -/
+def oddProdFrom (tn : ℕ) : ℕ → ℕ → ℕ
+  | 0, _ => 1
+  | fuel + 1, i => i * (if i + 2 ≤ tn then oddProdFrom tn fuel (i + 2) else 1)
+
+theorem oddStore_val (M tn : ℕ) (hM : M * tn < B) : ∀ fuel i st, i ≤ tn →
+    flVal (oddStore M tn fuel i st) = flVal st * oddProdFrom tn fuel i := by
+  intro fuel
+  induction fuel with
+  | zero => intro i st _; simp [oddStore, oddProdFrom]
+  | succ fuel ih =>
+    intro i st hi
+    rw [oddStore, oddProdFrom]
+    have hv := flStore_val i M st (fun hle => by
+      calc st.2 * i ≤ M * tn := Nat.mul_le_mul hle hi
+        _ < B := hM)
+    by_cases hc : i + 2 ≤ tn
+    · simp only [hc, if_true]
+      rw [ih (i + 2) _ hc, hv]; ring
+    · simp only [hc, if_false]; rw [hv]; ring
+
+/-- i odd, i ≤ tn, enough fuel: (i-2)!! * (i (i+2) ... ≤ tn) = product of all odd numbers ≤ tn -/
+theorem oddProdFrom_eq (tn : ℕ) : ∀ fuel i, i % 2 = 1 → i ≤ tn → tn < i + 2 * fuel →
+    (i - 2)‼ * oddProdFrom tn fuel i = oddDF tn := by
+  intro fuel
+  induction fuel with
+  | zero => intro i _ h1 h2; omega
+  | succ fuel ih =>
+    intro i hodd hi hf
+    rw [oddProdFrom]
+    have hdf : (i - 2)‼ * i = i‼ := by
+      rcases Nat.lt_or_ge i 2 with h | h
+      · have : i = 1 := by omega
+        subst this; rfl
+      · obtain ⟨k, rfl⟩ : ∃ k, i = k + 2 := ⟨i - 2, by omega⟩
+        rw [Nat.doubleFactorial_add_two]; simp only [Nat.add_sub_cancel]; ring
+    by_cases hc : i + 2 ≤ tn
+    · simp only [hc, if_true]
+      have := ih (i + 2) (by omega) hc (by omega)
+      simp only [Nat.add_sub_cancel] at this
+      rw [← this, ← hdf]; ring
+    · simp only [hc, if_false, mul_one]
+      rw [hdf]; unfold oddDF
+      congr 1; omega
+
+theorem odd2fac_entry : ∀ i < odd2facTable.length, odd2facTab i = (2 * i + 1)‼ := by
+  simp only [← doubleFactorial_eq]; decide +kernel
+
+theorem oddfac_entry : ∀ i ≤ ODD_FACTORIAL_TABLE_LIMIT, oddfacTab i = oddPart (i !) := by
+  simp only [← factorial_eq]; decide +kernel
+
+theorem oddfac_consts : ODD_DOUBLEFACTORIAL_TABLE_LIMIT % 2 = 1 ∧
+    ODD_DOUBLEFACTORIAL_TABLE_MAX = (ODD_DOUBLEFACTORIAL_TABLE_LIMIT)‼ ∧
+    2 * odd2facTable.length = ODD_DOUBLEFACTORIAL_TABLE_LIMIT + 1 ∧
+    ODD_DOUBLEFACTORIAL_TABLE_LIMIT + 1 ≤ 2 * ODD_FACTORIAL_TABLE_LIMIT + 1 ∧ 1 ≤ ODD_FACTORIAL_TABLE_LIMIT := by
+  simp only [← doubleFactorial_eq]; decide +kernel
+
+/-- for tn up to ODD_DOUBLEFACTORIAL_TABLE_LIMIT + 1 the two tables give the odd part of tn! (oddfac_1.c:307-314, :364-366) -/
+theorem oddfac_two_tables (tn : ℕ) (h1 : 1 ≤ tn) (h : tn ≤ ODD_DOUBLEFACTORIAL_TABLE_LIMIT + 1) :
+    odd2facTab ((tn - 1) / 2) * oddfacTab (tn / 2) = oddPart (tn !) := by
+  obtain ⟨c1, c2, c3, c4, c5⟩ := oddfac_consts
+  rw [oddPart_factorial_rec, odd2fac_entry _ (by omega), oddfac_entry _ (by omega)]
+  unfold oddDF
+  congr 2; omega
+
+/-- the outer do-while of the basecase, oddfac_1.c:351-362 -/
+theorem oddfacBase_val : ∀ fuel M tn st, ODD_DOUBLEFACTORIAL_TABLE_LIMIT + 2 ≤ tn → M * tn < B → tn < 2 ^ fuel →
+    (oddfacBase fuel M tn st).2 ≤ ODD_DOUBLEFACTORIAL_TABLE_LIMIT + 1 ∧ 1 ≤ (oddfacBase fuel M tn st).2 ∧
+    flVal (oddfacBase fuel M tn st).1 * oddPart ((oddfacBase fuel M tn st).2 !) = flVal st * oddPart (tn !) := by
+  intro fuel
+  induction fuel with
+  | zero => intro M tn st h1 _ h3; simp at h3; omega
+  | succ fuel ih =>
+    intro M tn st h1 hM hf
+    obtain ⟨c1, c2, c3, c4, c5⟩ := oddfac_consts
+    rw [oddfacBase]
+    have hst : flVal (ODD_DOUBLEFACTORIAL_TABLE_MAX :: st.1, st.2) = flVal st * (ODD_DOUBLEFACTORIAL_TABLE_LIMIT)‼ := by
+      simp only [flVal, prodList, c2]; ring
+    have hstore := oddStore_val M tn hM tn (ODD_DOUBLEFACTORIAL_TABLE_LIMIT + 2) (ODD_DOUBLEFACTORIAL_TABLE_MAX :: st.1, st.2) h1
+    have hprod := oddProdFrom_eq tn tn (ODD_DOUBLEFACTORIAL_TABLE_LIMIT + 2) (by omega) h1 (by omega)
+    simp only [Nat.add_sub_cancel] at hprod
+    have hlevel : flVal (oddStore M tn tn (ODD_DOUBLEFACTORIAL_TABLE_LIMIT + 2) (ODD_DOUBLEFACTORIAL_TABLE_MAX :: st.1, st.2))
+        = flVal st * oddDF tn := by
+      rw [hstore, hst, mul_assoc, hprod]
+    have hrec := oddPart_factorial_rec tn
+    have h2M : M * 2 < B := lt_of_le_of_lt (Nat.mul_le_mul_left _ (by omega)) hM
+    have hM2 : M * 2 % B * (tn / 2) < B := by
+      rw [Nat.mod_eq_of_lt h2M]
+      calc M * 2 * (tn / 2) = M * (2 * (tn / 2)) := by ring
+        _ ≤ M * tn := Nat.mul_le_mul_left _ (by omega)
+        _ < B := hM
+    by_cases hc : tn / 2 > ODD_DOUBLEFACTORIAL_TABLE_LIMIT + 1
+    · simp only [hc, if_true]
+      have hlt : tn / 2 < 2 ^ fuel := by rw [pow_succ] at hf; omega
+      obtain ⟨r1, r2, r3⟩ := ih (M * 2 % B) (tn / 2) _ (by omega) hM2 hlt
+      refine ⟨r1, r2, ?_⟩
+      rw [r3, hlevel, hrec]; ring
+    · simp only [hc, if_false]
+      refine ⟨by omega, by omega, ?_⟩
+      rw [hlevel, hrec]; ring
+
+theorem dscSteps_zero (n : ℕ) (h : aboveThreshold n FAC_DSC_THRESHOLD = false) : dscSteps 64 n 0 = (n, 0) := by
+  rw [dscSteps]; simp [h]
+
+/-- mpz_oddfac_1 below FAC_DSC_THRESHOLD (tables and the limb-product basecase, no sieve): the odd part of n! -/
+theorem mpz_oddfac_1_below_dsc (n flag : ℕ) (hn : n < B) (h : aboveThreshold n FAC_DSC_THRESHOLD = false) :
+    mpz_oddfac_1 n flag = oddPart (n !) := by
+  obtain ⟨c1, c2, c3, c4, c5⟩ := oddfac_consts
+  unfold mpz_oddfac_1
+  by_cases h1 : n ≤ ODD_FACTORIAL_TABLE_LIMIT
+  · simp only [h1, if_true]; exact oddfac_entry n h1
+  · simp only [h1, if_false]
+    by_cases h2 : n ≤ ODD_DOUBLEFACTORIAL_TABLE_LIMIT + 1
+    · simp only [h2, if_true]; exact oddfac_two_tables n (by omega) h2
+    · simp only [h2, if_false, dscSteps_zero n h]
+      have hthr : FAC_DSC_THRESHOLD ≠ 0 ∧ n < FAC_DSC_THRESHOLD := by
+        unfold aboveThreshold at h
+        simp only [Bool.or_eq_false_iff, decide_eq_false_iff_not, not_le] at h
+        exact h
+      have hM : (B - 1) / FAC_DSC_THRESHOLD * n < B := by
+        calc (B - 1) / FAC_DSC_THRESHOLD * n ≤ (B - 1) / FAC_DSC_THRESHOLD * FAC_DSC_THRESHOLD :=
+              Nat.mul_le_mul_left _ (le_of_lt hthr.2)
+          _ ≤ B - 1 := Nat.div_mul_le_self _ _
+          _ < B := by rw [B_eq]; norm_num
+      have hf : n < 2 ^ 64 := by rw [B_eq] at hn; norm_num; omega
+      obtain ⟨r1, r2, r3⟩ := oddfacBase_val 64 ((B - 1) / FAC_DSC_THRESHOLD) n ([], 1) (by omega) hM hf
+      generalize oddfacBase 64 ((B - 1) / FAC_DSC_THRESHOLD) n ([], 1) = res at r1 r2 r3
+      obtain ⟨st, tn⟩ := res
+      simp only at r1 r2 r3 ⊢
+      have e1 : flVal (([] : List ℕ), 1) = 1 := rfl
+      rw [e1, one_mul] at r3
+      rw [← r3, ← oddfac_two_tables tn r2 r1]
+      simp only [prodList, flVal, ne_eq, not_true_eq_false, if_false]; ring
+
+theorem dsc_consts : FAC_DSC_THRESHOLD ≠ 0 ∧ 2 * (ODD_DOUBLEFACTORIAL_TABLE_LIMIT + 2) ≤ FAC_DSC_THRESHOLD ∧
+    ODD_FACTORIAL_TABLE_LIMIT ≤ ODD_DOUBLEFACTORIAL_TABLE_LIMIT + 1 := by decide
+
+theorem aboveThreshold_dsc (m : ℕ) : aboveThreshold m FAC_DSC_THRESHOLD = true ↔ FAC_DSC_THRESHOLD ≤ m := by
+  unfold aboveThreshold
+  have := dsc_consts.1
+  simp [this]
+
+/-- oddfac_1.c:331-332: s halvings bring n below the threshold, not fewer -/
+theorem dscSteps_spec : ∀ fuel tn s, tn < 2 ^ fuel →
+    ∃ d, dscSteps fuel tn s = (tn / 2 ^ d, s + d) ∧ tn / 2 ^ d < FAC_DSC_THRESHOLD ∧
+      ∀ e < d, FAC_DSC_THRESHOLD ≤ tn / 2 ^ e := by
+  intro fuel
+  induction fuel with
+  | zero =>
+    intro tn s h
+    have h0 : tn = 0 := by simpa using h
+    have := dsc_consts.1
+    exact ⟨0, by simp [dscSteps], by simp [h0]; omega, by intro e he; omega⟩
+  | succ fuel ih =>
+    intro tn s h
+    rw [dscSteps]
+    by_cases ha : aboveThreshold tn FAC_DSC_THRESHOLD = true
+    · simp only [ha, if_true]
+      have hlt : tn / 2 < 2 ^ fuel := by rw [pow_succ] at h; omega
+      obtain ⟨d, h1, h2, h3⟩ := ih (tn / 2) (s + 1) hlt
+      refine ⟨d + 1, ?_, ?_, ?_⟩
+      · rw [h1, pow_succ, Nat.div_div_eq_div_mul, mul_comm]; congr 1; omega
+      · rw [pow_succ, mul_comm, ← Nat.div_div_eq_div_mul]; exact h2
+      · intro e he
+        rcases e with _ | e
+        · simpa using (aboveThreshold_dsc tn).1 ha
+        · have := h3 e (by omega)
+          rw [pow_succ, mul_comm, ← Nat.div_div_eq_div_mul]; exact this
+    · simp only [ha]
+      refine ⟨0, by simp, ?_, by intro e he; omega⟩
+      have := (aboveThreshold_dsc tn).not.1 ha
+      simpa using this
+
+/-- oddfac_1.c:394-426 with flag = 0: squaring and multiplying by the swing factor climbs from
+    (n >> s)! back to n!, given that each swing factor is the right one -/
+theorem dscLoop_val (n : ℕ) : ∀ s x, x = oddPart ((n >>> s)!) →
+    (∀ j < s, mpz_2multiswing_1 (n >>> j) * oddPart (((n >>> j) / 2)!) ^ 2 = oddPart ((n >>> j)!)) →
+    dscLoop n none s x = oddPart (n !) := by
+  intro s
+  induction s with
+  | zero => intro x hx _; simpa [dscLoop, iterDown] using hx
+  | succ s ih =>
+    intro x hx hsw
+    have hstep : dscLoop n none (s + 1) x = dscLoop n none s (dscStep n none s x) := by
+      unfold dscLoop; rw [iterDown]
+    rw [hstep]
+    unfold dscStep
+    simp only [reduceCtorEq, if_false]
+    apply ih
+    · have := hsw s (by omega)
+      have e : (n >>> s) / 2 = n >>> (s + 1) := by
+        rw [Nat.shiftRight_succ]
+      rw [e, ← hx] at this
+      rw [← this]; ring
+    · intro j hj; exact hsw j (by omega)
+
+/-- above the threshold mpz_oddfac_1 is the DSC loop started from the odd part of (n >> d)! -/
+theorem mpz_oddfac_1_above (n flag : ℕ) (hn : n < B) (ha : FAC_DSC_THRESHOLD ≤ n) :
+    ∃ d, d ≠ 0 ∧ (∀ e < d, FAC_DSC_THRESHOLD ≤ n / 2 ^ e) ∧
+      mpz_oddfac_1 n flag = dscLoop n (if flag = 0 then none else some (flag - 1)) d (oddPart ((n / 2 ^ d)!)) := by
+  obtain ⟨c1, c2, c3, c4, c5⟩ := oddfac_consts
+  obtain ⟨d1, d2, d3⟩ := dsc_consts
+  unfold mpz_oddfac_1
+  have h1 : ¬ n ≤ ODD_FACTORIAL_TABLE_LIMIT := by omega
+  have h2 : ¬ n ≤ ODD_DOUBLEFACTORIAL_TABLE_LIMIT + 1 := by omega
+  simp only [h1, h2, if_false]
+  have hf : n < 2 ^ 64 := by rw [B_eq] at hn; norm_num; omega
+  obtain ⟨d, e1, e2, e3⟩ := dscSteps_spec 64 n 0 hf
+  rw [e1]
+  simp only [Nat.zero_add]
+  have hd : d ≠ 0 := by
+    rintro rfl; simp at e2; omega
+  refine ⟨d, hd, e3, ?_⟩
+  have htn : ODD_DOUBLEFACTORIAL_TABLE_LIMIT + 2 ≤ n / 2 ^ d := by
+    obtain ⟨d', rfl⟩ : ∃ d', d = d' + 1 := ⟨d - 1, by omega⟩
+    have := e3 d' (by omega)
+    rw [pow_succ, ← Nat.div_div_eq_div_mul]; omega
+  have hM : (B - 1) / FAC_DSC_THRESHOLD * (n / 2 ^ d) < B := by
+    calc (B - 1) / FAC_DSC_THRESHOLD * (n / 2 ^ d) ≤ (B - 1) / FAC_DSC_THRESHOLD * FAC_DSC_THRESHOLD :=
+          Nat.mul_le_mul_left _ (le_of_lt e2)
+      _ ≤ B - 1 := Nat.div_mul_le_self _ _
+      _ < B := by rw [B_eq]; norm_num
+  have hf2 : n / 2 ^ d < 2 ^ 64 := lt_of_le_of_lt (Nat.div_le_self _ _) hf
+  obtain ⟨r1, r2, r3⟩ := oddfacBase_val 64 ((B - 1) / FAC_DSC_THRESHOLD) (n / 2 ^ d) ([], 1) htn hM hf2
+  generalize oddfacBase 64 ((B - 1) / FAC_DSC_THRESHOLD) (n / 2 ^ d) ([], 1) = res at r1 r2 r3
+  obtain ⟨st, tn⟩ := res
+  simp only at r1 r2 r3 ⊢
+  have e0 : flVal (([] : List ℕ), 1) = 1 := rfl
+  rw [e0, one_mul] at r3
+  simp only [hd, ne_eq, not_false_eq_true, if_true]
+  congr 1
+  rw [← r3, ← oddfac_two_tables tn r2 r1]
+  simp only [prodList, flVal]; ring
+
+/-- mpz_oddfac_1 n 0 is the odd part of n! for EVERY n, given the correctness of the sieve-based swing
+    factor for the arguments at or above FAC_DSC_THRESHOLD -/
+theorem mpz_oddfac_1_of_swing (n : ℕ) (hn : n < B)
+    (hsw : ∀ m, FAC_DSC_THRESHOLD ≤ m → m ≤ n →
+      mpz_2multiswing_1 m * oddPart ((m / 2)!) ^ 2 = oddPart (m !)) :
+    mpz_oddfac_1 n 0 = oddPart (n !) := by
+  by_cases hb : aboveThreshold n FAC_DSC_THRESHOLD = false
+  · exact mpz_oddfac_1_below_dsc n 0 hn hb
+  · have ha : FAC_DSC_THRESHOLD ≤ n := (aboveThreshold_dsc n).1 (by simpa using hb)
+    obtain ⟨d, hd, e3, heq⟩ := mpz_oddfac_1_above n 0 hn ha
+    rw [heq]
+    simp only [if_true]
+    apply dscLoop_val
+    · rw [Nat.shiftRight_eq_div_pow]
+    · intro j hj
+      rw [Nat.shiftRight_eq_div_pow]
+      exact hsw _ (e3 j hj) (Nat.div_le_self _ _)
+
+theorem popc_fuel : ∀ f n, n < 2 ^ f → popc (f + 1) n = popc f n := by
+  intro f
+  induction f with
+  | zero => intro n h; have : n = 0 := by simpa using h
+            subst this; simp [popc]
+  | succ f ih =>
+    intro n h
+    have e1 : popc (f + 1 + 1) n = if n = 0 then 0 else n % 2 + popc (f + 1) (n / 2) := rfl
+    have e2 : popc (f + 1) n = if n = 0 then 0 else n % 2 + popc f (n / 2) := rfl
+    rw [e1, e2]
+    by_cases h0 : n = 0
+    · simp [h0]
+    · simp only [h0, if_false]
+      rw [ih (n / 2) (by rw [pow_succ] at h; omega)]
+
+theorem popcount_two_mul (k : ℕ) (hk : 2 * k < B) : popcount (2 * k) = popcount k := by
+  unfold popcount
+  rcases Nat.eq_zero_or_pos k with rfl | hpos
+  · rfl
+  · have e1 : popc 64 (2 * k) = if 2 * k = 0 then 0 else 2 * k % 2 + popc 63 (2 * k / 2) := rfl
+    have h0 : 2 * k ≠ 0 := by omega
+    rw [e1]
+    simp only [h0, if_false]
+    rw [show 2 * k % 2 = 0 by omega, show 2 * k / 2 = k by omega, Nat.zero_add]
+    exact (popc_fuel 63 k (by rw [B_eq] at hk; norm_num; omega)).symm
+
+/-- the even case of mpz_2fac_ui: (2k)!! = k! 2^k (2fac_ui.c:62-71) -/
+theorem two_fac_even (k : ℕ) (hk : 2 * k < B) (hodd : mpz_oddfac_1 k 0 = oddPart (k !)) :
+    mpz_2fac_ui (2 * k) = (2 * k)‼ := by
+  unfold mpz_2fac_ui
+  have e0 : 2 * k % 2 = 0 := by omega
+  have hkB : k < B := by omega
+  have hcount : (if 2 * k ≤ TABLE_LIMIT_2N_MINUS_POPC_2N ∧ 2 * k ≠ 0 then fac2cntTab (2 * k / 2 - 1) else 2 * k - popcount (2 * k))
+      = 2 * k - popcount (2 * k) := by
+    split_ifs with hc
+    · exact fac2cnt_entry (2 * k) hc.1 (by omega)
+    · rfl
+  simp only [e0, if_true]
+  rw [hcount, show 2 * k / 2 = k by omega, hodd, Nat.doubleFactorial_two_mul, popcount_two_mul k hk]
+  have hp : popcount k ≤ k := popc_le 64 k
+  conv_rhs => rw [factorial_two_adic k hkB]
+  rw [show 2 * k - popcount k = k + (k - popcount k) by omega, pow_add]; ring
+
+/-- 2fac_ui.c:91-92: the factors n-2, n-4, ... above ODD_DOUBLEFACTORIAL_TABLE_LIMIT -/
+theorem fac2StoreDown_val (M : ℕ) : ∀ fuel n st, n ≤ 2 * fuel + ODD_DOUBLEFACTORIAL_TABLE_LIMIT + 2 → n % 2 = 1 →
+    ODD_DOUBLEFACTORIAL_TABLE_LIMIT + 2 ≤ n → M * n < B →
+    flVal (fac2StoreDown M fuel n st) * (ODD_DOUBLEFACTORIAL_TABLE_LIMIT)‼ = flVal st * (n - 2)‼ := by
+  have hLodd := oddfac_consts.1
+  intro fuel
+  induction fuel with
+  | zero =>
+    intro n st h1 _ h3 _
+    have : n - 2 = ODD_DOUBLEFACTORIAL_TABLE_LIMIT := by omega
+    rw [this]; rfl
+  | succ fuel ih =>
+    intro n st h1 hodd h3 hM
+    rw [fac2StoreDown]
+    by_cases hc : n - 2 > ODD_DOUBLEFACTORIAL_TABLE_LIMIT
+    · simp only [hc, if_true]
+      have hv := flStore_val (n - 2) M st (fun hle => by
+        calc st.2 * (n - 2) ≤ M * n := Nat.mul_le_mul hle (by omega)
+          _ < B := hM)
+      have hM' : M * (n - 2) < B := lt_of_le_of_lt (Nat.mul_le_mul_left _ (by omega)) hM
+      rw [ih (n - 2) _ (by omega) (by omega) (by omega) hM', hv]
+      obtain ⟨k, rfl⟩ : ∃ k, n = k + 4 := ⟨n - 4, by omega⟩
+      simp only [show k + 4 - 2 = k + 2 by omega, show k + 2 - 2 = k by omega, Nat.doubleFactorial_add_two]; ring
+    · simp only [hc, if_false]
+      have : n - 2 = ODD_DOUBLEFACTORIAL_TABLE_LIMIT := by omega
+      rw [this]
+
+theorem oddDF_of_odd (n : ℕ) (h : n % 2 = 1) : oddDF n = n‼ := by
+  unfold oddDF; congr 1; omega
+
+/-- DSC loop with the last square skipped (flag = 1): odd part of (n/2)! times the swing factor of n -/
+theorem dscLoop_skip_val (n : ℕ) : ∀ s x, x = oddPart ((n >>> (s + 1))!) →
+    (∀ j, 1 ≤ j → j ≤ s → mpz_2multiswing_1 (n >>> j) * oddPart (((n >>> j) / 2)!) ^ 2 = oddPart ((n >>> j)!)) →
+    dscLoop n (some 0) (s + 1) x = oddPart ((n / 2)!) * mpz_2multiswing_1 n := by
+  intro s
+  induction s with
+  | zero =>
+    intro x hx _
+    have : dscLoop n (some 0) 1 x = dscStep n (some 0) 0 x := by
+      unfold dscLoop; rw [iterDown, iterDown]
+    rw [this]; unfold dscStep
+    simp only [if_true, Nat.shiftRight_zero]
+    rw [hx, Nat.shiftRight_eq_div_pow]
+  | succ s ih =>
+    intro x hx hsw
+    have hstep : dscLoop n (some 0) (s + 1 + 1) x = dscLoop n (some 0) (s + 1) (dscStep n (some 0) (s + 1) x) := by
+      unfold dscLoop; rw [iterDown]
+    rw [hstep]
+    apply ih
+    · unfold dscStep
+      have hne : ¬ (some 0 = some (s + 1)) := by simp
+      simp only [hne, if_false]
+      have := hsw (s + 1) (by omega) le_rfl
+      have e : (n >>> (s + 1)) / 2 = n >>> (s + 1 + 1) := (Nat.shiftRight_succ _ _).symm
+      rw [e, ← hx] at this
+      rw [← this]; ring
+    · intro j h1 h2; exact hsw j h1 (by omega)
+
+/-- mpz_2fac_ui for odd n (table, limb-product basecase, or mpz_oddfac_1 with flag 1), given the swing factors -/
+theorem two_fac_odd (n : ℕ) (hn : n < B) (hodd : n % 2 = 1)
+    (hsw : FAC_2DSC_THRESHOLD ≤ n → ∀ m, FAC_DSC_THRESHOLD ≤ m → m ≤ n →
+      mpz_2multiswing_1 m * oddPart ((m / 2)!) ^ 2 = oddPart (m !)) :
+    mpz_2fac_ui n = n‼ := by
+  obtain ⟨c1, c2, c3, c4, c5⟩ := oddfac_consts
+  obtain ⟨d1, d2, d3⟩ := dsc_consts
+  unfold mpz_2fac_ui
+  have e0 : ¬ n % 2 = 0 := by omega
+  simp only [e0, if_false]
+  by_cases h1 : n ≤ ODD_DOUBLEFACTORIAL_TABLE_LIMIT
+  · simp only [h1, if_true]
+    rw [odd2fac_entry _ (by omega)]; congr 1; omega
+  · simp only [h1, if_false]
+    have h2dsc : FAC_2DSC_THRESHOLD = 2 * FAC_DSC_THRESHOLD ∨ FAC_2DSC_THRESHOLD = 2 * FAC_DSC_THRESHOLD + 1 := by
+      unfold FAC_2DSC_THRESHOLD
+      have : FAC_DSC_THRESHOLD &&& 1 = FAC_DSC_THRESHOLD % 2 := Nat.and_one_is_mod _
+      rw [this]
+      have h := Nat.shiftLeft_add_eq_or_of_lt (i := 1) (b := FAC_DSC_THRESHOLD % 2) (by omega) FAC_DSC_THRESHOLD
+      rw [Nat.shiftLeft_eq, pow_one] at h
+      rw [← h]; omega
+    by_cases h2 : aboveThreshold n FAC_2DSC_THRESHOLD = true
+    · simp only [h2, Bool.not_true, Bool.false_eq_true, if_false]
+      -- mpz_oddfac_1 (x, n, 1)
+      have h2' : FAC_2DSC_THRESHOLD ≤ n := by
+        unfold aboveThreshold at h2
+        have : FAC_2DSC_THRESHOLD ≠ 0 := by omega
+        simpa [this] using h2
+      have ha : FAC_DSC_THRESHOLD ≤ n := by omega
+      have hsw := hsw h2'
+      obtain ⟨d, hd, e3, heq⟩ := mpz_oddfac_1_above n 1 hn ha
+      rw [heq]
+      simp only [one_ne_zero, if_false, Nat.sub_self]
+      obtain ⟨s, rfl⟩ : ∃ s, d = s + 1 := ⟨d - 1, by omega⟩
+      rw [dscLoop_skip_val n s _ (by rw [Nat.shiftRight_eq_div_pow])
+        (fun j h1 h2 => by rw [Nat.shiftRight_eq_div_pow]; exact hsw _ (e3 j (by omega)) (Nat.div_le_self _ _))]
+      have hs := hsw n ha le_rfl
+      have hrec := oddPart_factorial_rec n
+      rw [oddDF_of_odd n hodd] at hrec
+      have hpos : 0 < oddPart ((n / 2)!) := by
+        have := (oddPart_spec ((n / 2)!) (Nat.factorial_ne_zero _)).1; omega
+      have : oddPart ((n / 2)!) * mpz_2multiswing_1 n * oddPart ((n / 2)!) = n‼ * oddPart ((n / 2)!) := by
+        rw [← hrec, ← hs]; ring
+      exact Nat.eq_of_mul_eq_mul_right hpos this
+    · simp only [h2, Bool.not_false, if_true]
+      have hthr : n < FAC_2DSC_THRESHOLD := by
+        unfold aboveThreshold at h2
+        simp only [Bool.or_eq_true, decide_eq_true_eq, not_or, not_le] at h2
+        exact h2.2
+      have h0 : FAC_2DSC_THRESHOLD ≠ 0 := by omega
+      have hM : (B - 1) / FAC_2DSC_THRESHOLD * n < B := by
+        calc (B - 1) / FAC_2DSC_THRESHOLD * n ≤ (B - 1) / FAC_2DSC_THRESHOLD * FAC_2DSC_THRESHOLD :=
+              Nat.mul_le_mul_left _ (le_of_lt hthr)
+          _ ≤ B - 1 := Nat.div_mul_le_self _ _
+          _ < B := by rw [B_eq]; norm_num
+      have hv := fac2StoreDown_val ((B - 1) / FAC_2DSC_THRESHOLD) n n ([ODD_DOUBLEFACTORIAL_TABLE_MAX], n)
+        (by omega) hodd (by omega) hM
+      have e1 : flVal ([ODD_DOUBLEFACTORIAL_TABLE_MAX], n) = n * (ODD_DOUBLEFACTORIAL_TABLE_LIMIT)‼ := by
+        simp only [flVal, prodList, c2]; ring
+      rw [e1] at hv
+      have hpos : 0 < (ODD_DOUBLEFACTORIAL_TABLE_LIMIT)‼ := Nat.doubleFactorial_pos _
+      have hdf : n * (n - 2)‼ = n‼ := by
+        obtain ⟨k, rfl⟩ : ∃ k, n = k + 2 := ⟨n - 2, by omega⟩
+        rw [Nat.doubleFactorial_add_two]; simp
+      have : flVal (fac2StoreDown ((B - 1) / FAC_2DSC_THRESHOLD) n n ([ODD_DOUBLEFACTORIAL_TABLE_MAX], n)) *
+          (ODD_DOUBLEFACTORIAL_TABLE_LIMIT)‼ = n‼ * (ODD_DOUBLEFACTORIAL_TABLE_LIMIT)‼ := by
+        rw [hv, ← hdf]; ring
+      exact Nat.eq_of_mul_eq_mul_right hpos this
+
+theorem FAC_2DSC_ge : 2 * FAC_DSC_THRESHOLD ≤ FAC_2DSC_THRESHOLD := by decide
+
+end Fac
+
 end Mpir.Numth
